@@ -67,8 +67,10 @@ type Op struct {
 	D        int64             `json:"d,omitempty"`
 	Cfg      *SubCfg           `json:"cfg,omitempty"`
 	Labels   map[string]string `json:"labels,omitempty"`
-	// Via = "handler": go through the gRPC handler instead of the action (pull, ack, delay, publish)
+	// Via = "handler": go through the gRPC handler instead of the action (pull, ack, delay, publish, seek)
 	Via string `json:"via,omitempty"`
+	// K = "rpc": a control-plane request sent to the real gRPC handler (UpdateSubscription with a mask, …)
+	Rpc *Rpc `json:"rpc,omitempty"`
 }
 
 func (o Op) String() string { b, _ := json.Marshal(o); return string(b) }
@@ -281,6 +283,19 @@ func (w *World) Exec(op Op) *Result {
 	}
 	res.Before = w.lastDels
 	res.SubsBefore, res.TopicsBefore = w.lastSubs, w.lastTopics
+	if op.K == "rpc" {
+		// the API layer writes its own protocol lines (rpc + dump), replayed by the same model state
+		rr := w.Api().ExecRpc(*op.Rpc)
+		res.Resp = "ok"
+		if rr.Status != "OK" {
+			res.Resp = "E:" + rr.Status
+		}
+		res.Wakes = rr.Wakes
+		res.TAfter = w.Now()
+		res.After = w.lastDels
+		res.SubsAfter, res.TopicsAfter, res.Msgs = w.lastSubs, w.lastTopics, w.lastMsgs
+		return res
+	}
 	if op.K == "advance" {
 		// nothing runs concurrently in a sequential history: the tables cannot change
 		line := w.execInner(op, res)
